@@ -286,6 +286,9 @@ def preset_rule(ctx, fv):
         for a in m["arms"]:
             variant = norm_path(a["pat"].get("path", "")).split("::")[-1]
             calls = [x for x in walk(a["body"]) if x.get("k") in ("call", "mcall") and cname(x).startswith(WS)]
+            if not calls:
+                got[variant] = None        # a value table (`match preset { Csv => ",", .. }`): read by the third form below
+                continue
             if len(calls) != 1:
                 got[variant] = "<%d calls>" % len(calls)
                 continue
@@ -297,6 +300,8 @@ def preset_rule(ctx, fv):
                 got[variant] = t[1] if t[0] == "lit" else show(t)
             else:
                 got[variant] = cname(c)
+        if got and all(v is None for v in got.values()):
+            continue
         n_tables += 1
         want = MIN_PRESETS if arm == "Min" else PRESETS
         for v, exp in want.items():
@@ -334,10 +339,19 @@ def preset_rule(ctx, fv):
     for c in fv.nodes:
         if c.get("k") == "mcall" and cname(c).endswith("set_delim") and c.get("args"):
             a = c["args"][0]
-            while a.get("k") in ("block", "addr") and not a.get("stmts"):
-                a = a.get("expr") if a.get("k") == "block" else a.get("e")
-                if a is None:
-                    break
+            while a is not None and ((a.get("k") in ("block", "addr") and not a.get("stmts")) or
+                                     (a.get("k") in ("mcall", "call") and cname(a).split("::")[-1] in
+                                      ("to_owned", "to_string", "into", "from", "clone") and len(call_args(a)) == 1)):
+                if a.get("k") == "block":
+                    a = a.get("expr")
+                elif a.get("k") == "addr":
+                    a = a.get("e")
+                else:
+                    a = call_args(a)[0]
+                if a is not None and a.get("k") == "local":
+                    o_ = fv.origin(a)
+                    if o_ is not None and o_ is not a:
+                        a = o_
             if a is None or a.get("k") != "match":
                 continue
             st = fv.term(a["e"])
